@@ -294,7 +294,8 @@ def eas_results_density(numPEs, costhetaChEff, fig, ax):
 
 @decorators.ensure_plot_registry(dashboard)
 def show_plot(sim, sim_class, plot):
-    if dashboard.__name__ in plot:
+    if dashboard.__name__ in plot and "numPEs" in sim.colnames:
+        # (the dashboard is built from the optical columns: results of a radio-only run have none)
         dashboard(sim, sim_class)
 
     # dashboard(sim, plot)
